@@ -71,8 +71,12 @@ STATIC_ERRORS = [
     'select a1 join', 'select a1 join b on a1', 'select a1 join b on a1 == b1 and', 'select a1 join c on a1 == c1', 'select a1 select a2',
     'select a1 where a2 == 1 where a1 == 2', 'select * except a9x', 'select * except a1 join b on a1 == b1', 'select a1, (a2', 'select a1 a2 a3',
     'delete a1', 'select top 2 a1 limit 3 limit 4', 'update set zz = 5', 'select a1 as x, *',
+    'select a1, count(*) group by a1 order by a1', 'select count(*) group by a1 order by a1 desc', 'update set a1 = 1 group by a1',
     'select UNNEST(a1.split(";")), UNNEST(a2.split(";"))', 'select max(a1) + 1', 'select distinct count(*)', 'select a1, count(*) order by a1',
 ]
+# the last four are found when the first record is evaluated (the select list has to run); every other mistake is found in the query TEXT, so it is reported
+# whatever the data are — on an empty table and when WHERE lets nothing through as well
+DYNAMIC_STATIC_ERRORS = STATIC_ERRORS[-4:]
 
 
 def static_error_check(res):
@@ -83,9 +87,8 @@ class W(rbql_engine.RBQLOutputWriter):
     def __init__(self): self.writes = 0
     def write(self, f): self.writes += 1; return True
 out = []
-for q in json.loads(sys.argv[1]):
+for q, A in json.loads(sys.argv[1]):
     w = W()
-    A = [['1', 'x;y', 'u'], ['2', 'z', 'v']]
     it = rbql_engine.TableIterator(A, None)
     reg = rbql_engine.ListTableRegistry([rbql_engine.ListTableInfo('b', [['1', 'p']], None)])
     try:
@@ -96,14 +99,20 @@ for q in json.loads(sys.argv[1]):
 print(json.dumps(out, default=repr))
 '''
     import subprocess
-    r = subprocess.run([common.PY, '-W', 'ignore', '-c', code, json.dumps(STATIC_ERRORS)], env=common.impl_env(), stdout=subprocess.PIPE, stderr=subprocess.PIPE, timeout=120)
+    full = [['1', 'x;y', 'u'], ['2', 'z', 'v']]
+    jobs = [(q, full) for q in STATIC_ERRORS]
+    for q in STATIC_ERRORS:
+        if q not in DYNAMIC_STATIC_ERRORS:
+            jobs.append((q, []))
+            jobs.append((q, [['nothing', 'passes', 'here']]) if ' where ' in q else (q.replace(' group by', ' where a1 == "never" group by', 1) if ' group by' in q and q.startswith('select') and ' order by a1 group' not in q else q, [['1', 'x', 'u']]))
+    r = subprocess.run([common.PY, '-W', 'ignore', '-c', code, json.dumps(jobs)], env=common.impl_env(), stdout=subprocess.PIPE, stderr=subprocess.PIPE, timeout=120)
     try:
         out = json.loads(r.stdout.decode())
     except ValueError:
-        out = [['harness-failure', 0, r.stderr.decode()[-200:]]] * len(STATIC_ERRORS)
-    res.evaluations += len(STATIC_ERRORS)
+        out = [['harness-failure', 0, r.stderr.decode()[-200:]]] * len(jobs)
+    res.evaluations += len(jobs)
     nbad = 0
-    for q, o in zip(STATIC_ERRORS, out):
+    for (q, _A), o in zip(jobs, out):
         res.count('static_error_class=' + str(o[0]))
         ok = o[0] in ('query parsing', 'syntax error') and o[1] == 0
         if q == 'select a1, (a2' or q == 'select a1 a2 a3':
@@ -111,7 +120,7 @@ print(json.dumps(out, default=repr))
         if not ok:
             nbad += 1
             res.violations.append({'property': 'C14', 'impl': 'py', 'why': 'a mistake detectable from the query text was not reported as a parsing/syntax error before any write',
-                                   'query_py': q, 'observed_class_writes_exception': o, 'case_key': 'C14|static|' + q})
+                                   'query_py': q, 'A': _A, 'observed_class_writes_exception': o, 'case_key': 'C14|static|%s|%d' % (q, len(_A))})
     res.count('static_error_failures', nbad)
 
 
